@@ -75,8 +75,44 @@ def table(aut, prefix, idents, params):
     return ' \\/ '.join(terms)
 
 
+TEMPLATES = {
+    # integer template families: rigid *integer* constants inside arithmetic actions and goals; the
+    # valuations outside the type hints (x = 3, y = -2) are part of every game
+    'T11': dict(env=dict(x=(0, 2)), sys=dict(y=(-1, 1)),
+                consts=dict(a=(0, 1), b=(-1, 1), c=(-1, 1), d=(0, 2), e=(-1, 1), k='bool'),
+                env_action="(x' <= x + a) /\\ ((x' >= x - 1) \\/ k)",
+                sys_action="((y' = y + b) \\/ (y' = c)) /\\ (k \\/ (y' <= x'))",
+                goals=["(y = e) \\/ (x = d)"], holds=["x >= d"]),
+    'T11b': dict(env=dict(x='bool'), sys=dict(y=(0, 2)),
+                 consts=dict(a=(0, 2), b=(0, 1), c=(0, 2), k='bool'),
+                 env_action="(x' <=> (x \\/ (y = a))) \\/ k",
+                 sys_action="(y' <= y + b) /\\ (y' >= y - 1) /\\ ((~ x') \\/ (y' # c))",
+                 goals=["y = a", "y = c"], holds=["~ x"]),
+}
+
+
+def build_template(shape, moore, plus_one, qinit='\\A \\A'):
+    import omega.symbolic.temporal as trl
+    t = TEMPLATES[shape]
+    aut = trl.Automaton()
+    aut.declare_variables(**t['env'], **t['sys'])
+    aut.declare_constants(**t['consts'])
+    aut.varlist = dict(env=list(t['env']), sys=list(t['sys']))
+    aut.init['env'] = 'TRUE'
+    aut.init['sys'] = 'TRUE'
+    aut.action['env'] = t['env_action']
+    aut.action['sys'] = t['sys_action']
+    aut.win['[]<>'] = aut.bdds_from(*t['goals'])
+    aut.win['<>[]'] = aut.bdds_from(*t['holds'])
+    aut.moore, aut.plus_one, aut.qinit = moore, plus_one, qinit
+    aut.prime_varlists()
+    return aut, list(t['consts'])
+
+
 def build(shape, moore, plus_one, qinit='\\A \\A'):
     import omega.symbolic.temporal as trl
+    if shape in TEMPLATES:
+        return build_template(shape, moore, plus_one, qinit)
     env, sys_, eids, sids, ng, nh = SHAPES[shape]
     aut = trl.Automaton()
     decl = dict(env)
@@ -157,5 +193,15 @@ class Explicit:
         return out
 
 
-def model_params(model, params, bits):
-    return {p: z3.is_true(model.eval(bits(p), model_completion=True)) for p in params}
+def model_params(model, params, bits, table=None):
+    """Values of the rigid constants in a model (Boolean table constants, or integer constants when the
+    symbol table is given)."""
+    out = {}
+    for p in params:
+        d = table.get(p) if table else None
+        if d is None or d['type'] == 'bool':
+            out[p] = z3.is_true(model.eval(bits(p), model_completion=True))
+        else:
+            a = {b: z3.is_true(model.eval(bits(b), model_completion=True)) for b in d['bitnames']}
+            out[p] = link.bits_to_value(p, d, a)
+    return out
